@@ -38,7 +38,7 @@ func init() {
 			if tier == "thorough" {
 				return 400000, 15 * time.Minute
 			}
-			return 6000, 40 * time.Second
+			return 6000, 32 * time.Second
 		},
 		Real:  []string{"journal.NewDirectoryGtfsrtSource", "DirectoryGtfsrtSource.Next", "os.ReadDir/os.ReadFile on a real scratch directory", "gtfs.ParseRealtime + nycttrips extension", "journal.BuildJournal", "Journal.ExportToCsv"},
 		Stubs: []string{"simulated world/publisher producing the good feeds", "disk model + fault plan (the simulator performs the file operations)", "tee GtfsrtSource that applies faults between Next calls", "slice-backed GtfsrtSource for the reference journal"},
@@ -681,10 +681,11 @@ func genC19Case(t *sim.T, tier string) *c19Case {
 	}
 	// long runs of bad entries (a hundred unreadable or unparseable entries in a row, at the very beginning
 	// or somewhere in the middle), as a directory that also collects logs or temporary files has
-	badRun, badRunPrefix := 0, ""
+	badRun, badRunPrefix, subdirRun := 0, "", false
 	if t.Chance(1, 40) {
 		badRun = []int{20, 100, 101, 150, 300}[t.Choose(5)]
 		badRunPrefix = []string{"", "0", "1705312845"}[t.Choose(3)] // sorts first / among the ordered names
+		subdirRun = t.Chance(1, 2)
 		t.Probe("long-run-of-bad-entries")
 	}
 	used := map[string]bool{}
@@ -706,6 +707,9 @@ func genC19Case(t *sim.T, tier string) *c19Case {
 		}
 		used[name] = true
 		k := []entKind{kEmpty, kGarbage, kSubdir}[i%3]
+		if subdirRun {
+			k = kSubdir
+		}
 		e := dirEntry{name: name, kind: k}
 		if k == kGarbage {
 			e.data = []byte{0xde, 0xad, byte(i)}
@@ -1083,7 +1087,12 @@ func runC19(t *sim.T, tier string) *sim.Violation {
 	}
 	t.SimTime = float64(len(c.good)) * 60
 
-	enumerate := t.Chance(1, 6) && len(c.entries) <= 10
+	totalBytes := 0
+	for _, e := range c.entries {
+		totalBytes += len(e.data)
+	}
+	// every enumerated variant re-creates the directory: only for small ones
+	enumerate := t.Chance(1, 6) && len(c.entries) <= 10 && totalBytes < 100_000
 	if !enumerate {
 		plan := c19Plan{faults: map[int][]c19Fault{}}
 		nf := t.Weighted(3, 3, 2, 1, 1)
